@@ -1065,7 +1065,7 @@ impl RData {
             RecordType::CNAME => Self::CNAME(CNAME(Name::from_tokens(tokens, origin)?)),
             RecordType::CSYNC => Self::CSYNC(CSYNC::from_tokens(tokens)?),
             RecordType::HINFO => Self::HINFO(HINFO::from_tokens(tokens)?),
-            RecordType::HTTPS => Self::HTTPS(HTTPS(SVCB::from_tokens(tokens)?)),
+            RecordType::HTTPS => Self::HTTPS(HTTPS(SVCB::from_tokens(tokens, origin)?)),
             RecordType::IXFR => return Err(ParseError::from("parsing IXFR doesn't make sense")),
             RecordType::MX => Self::MX(MX::from_tokens(tokens, origin)?),
             RecordType::NAPTR => Self::NAPTR(NAPTR::from_tokens(tokens, origin)?),
@@ -1082,7 +1082,7 @@ impl RData {
             RecordType::SOA => Self::SOA(SOA::from_tokens(tokens, origin)?),
             RecordType::SRV => Self::SRV(SRV::from_tokens(tokens, origin)?),
             RecordType::SSHFP => Self::SSHFP(SSHFP::from_tokens(tokens)?),
-            RecordType::SVCB => Self::SVCB(SVCB::from_tokens(tokens)?),
+            RecordType::SVCB => Self::SVCB(SVCB::from_tokens(tokens, origin)?),
             RecordType::TLSA => Self::TLSA(TLSA::from_tokens(tokens)?),
             RecordType::TXT => Self::TXT(TXT::from_tokens(tokens)?),
             RecordType::SIG => return Err(ParseError::from("parsing SIG doesn't make sense")),
